@@ -80,3 +80,24 @@ def template_of(sql, probe):
 
 def fill(parts, piece):
     return piece.join(parts)
+
+
+# ---- concrete side computations ---------------------------------------------------------------
+try:  # python3-vt (symbolic runs)
+    from crosshair.tracers import NoTracing as _NoTracing
+except Exception:  # /venv/bin/python (concrete replays): nothing to switch off
+    import contextlib
+
+    _NoTracing = contextlib.nullcontext
+
+_CC: dict = {}
+
+
+def concrete_cached(fn, *args):
+    """fn(*args) for CONCRETE args only (probe renderings, templates): run outside CrossHair's tracer
+    (native speed) and remembered across paths.  Never pass a symbolic value."""
+    key = (fn.__module__, fn.__qualname__, args)
+    if key not in _CC:
+        with _NoTracing():
+            _CC[key] = fn(*args)
+    return _CC[key]
